@@ -102,6 +102,11 @@ func (m *mctx) headerOps() map[string]func(h *types.Header) {
 		"extra-257":          func(h *types.Header) { h.Extra = strings.Repeat("x", 257) },
 		"extra-256":          func(h *types.Header) { h.Extra = strings.Repeat("y", 256) },
 		"extra-other":        func(h *types.Header) { h.Extra = "other" },
+		// the bound is in bytes: well-formed multi-byte text of few characters
+		"extra-258-bytes-in-86-chars":  func(h *types.Header) { h.Extra = strings.Repeat("\u77ff", 86) },
+		"extra-768-bytes-in-256-chars": func(h *types.Header) { h.Extra = strings.Repeat("\u77ff", 256) },
+		"extra-255-bytes-in-85-chars":  func(h *types.Header) { h.Extra = strings.Repeat("\u77ff", 85) },
+		"extra-257-bytes-invalid-utf8": func(h *types.Header) { h.Extra = strings.Repeat("\xff", 257) },
 	}
 	if m.hasOther {
 		ops["miner-other-deputy"] = func(h *types.Header) { h.MinerAddress = m.other.Addr }
